@@ -117,7 +117,39 @@ func RunCheck(o CheckOpts) (*CheckReport, error) {
 		lit string
 	}
 	var actions []actionJob
+	// lock-style monitors: every function that locks the mutex is a unit (own contract, or an empty one)
 	for _, m := range eng.DB.Monitors {
+		if m.Kind != "lock" || !hasProp(m.Props, o.Prop) {
+			continue
+		}
+		for _, fn := range eng.LockSections(m) {
+			if containsStr(m.TrustSections, fn.String()) {
+				continue
+			}
+			if o.Only != "" && !strings.Contains(fn.String(), o.Only) {
+				continue
+			}
+			already := false
+			for _, c := range cs {
+				if c.Key == fn.String() {
+					already = true
+				}
+			}
+			if already {
+				continue
+			}
+			if c := eng.ContractFor(fn); c != nil && !c.Trusted && !c.Abstract {
+				cs = append(cs, c)
+				continue
+			}
+			cs = append(cs, &Contract{Key: fn.String(), Name: shortName(fn.String()), PkgPath: m.PkgPath, File: m.File, Line: m.Line,
+				Loops: map[int][]Clause{}, ModAll: true, Props: []string{o.Prop}})
+		}
+	}
+	for _, m := range eng.DB.Monitors {
+		if m.Kind == "lock" {
+			continue
+		}
 		lits := eng.ActionLiterals(m)
 		for _, l := range lits {
 			actionOf[l.String()] = m
@@ -161,7 +193,15 @@ func RunCheck(o CheckOpts) (*CheckReport, error) {
 	wg.Wait()
 	for _, m := range eng.DB.Monitors {
 		if hasProp(m.Props, o.Prop) && o.Only == "" {
-			units = append(units, eng.DisciplineUnit(m))
+			if m.Kind == "lock" {
+				u := eng.LockDisciplineUnit(m)
+				for _, ts := range m.TrustSections {
+					u.Trusted["monitor "+m.Name+": critical sections of "+shortName(ts)+" are not verified"] = true
+				}
+				units = append(units, u)
+			} else {
+				units = append(units, eng.DisciplineUnit(m))
+			}
 		}
 	}
 	// raw SMT lemmas of this property (specs/lemmas/<prop>-*.smt2)
